@@ -43,6 +43,26 @@ Theorem C14_sum_perm_exact : forall e rows rows' zs,
 Proof. intros. split; [now apply sum_exact | now apply (sum_perm_exact e rows rows')]. Qed.
 Print Assumptions C14_sum_perm_exact.
 
+(** ... and beyond it the full statement is FALSE (KF-14): the same three lines in two orders give two different
+    sums, neither of them the true total 9007199254740995.  The witness replayed on the binary is the known finding. *)
+Theorem C14_sum_order_refuted :
+  exists lines lines' (q : list stage) t t',
+    Permutation lines lines' /\
+    out (run_pipeline (fun _ => true) q lines) = Ok (OTable t) /\
+    out (run_pipeline (fun _ => true) q lines') = Ok (OTable t') /\
+    t_rows t <> t_rows t'.
+Proof.
+  exists [lit "{""x"": 9007199254740993}"; lit "{""x"": 1}"; lit "{""x"": 1}"],
+         [lit "{""x"": 1}"; lit "{""x"": 1}"; lit "{""x"": 9007199254740993}"],
+         [SJson None; SAgg [(lit "_sum", FSum (ECol (lit "x") []))] []].
+  do 2 eexists. split; [|split; [vm_compute; reflexivity|split; [vm_compute; reflexivity|cbn; discriminate]]].
+  apply Permutation_sym. change (Permutation ([lit "{""x"": 1}"; lit "{""x"": 1}"] ++ [lit "{""x"": 9007199254740993}"])
+                                           ([lit "{""x"": 9007199254740993}"] ++ [lit "{""x"": 1}"; lit "{""x"": 1}"])).
+  apply Permutation_app_comm.
+Qed.
+Print Assumptions C14_sum_order_refuted.
+
+
 (** min / max over integers: exact for the integer arguments ([int_args]: an integer, or text
     holding one) of ANY size (fix b2f85e2: they no longer pass through a double), together with the
     other numeric arguments ([float_args]) when those are integral doubles of magnitude <= 2^53 *)
